@@ -31,7 +31,7 @@ verus! {
 #[verifier::external_body] pub fn opq_eprint() { unimplemented!() }
 /// `format!(..)`: some text
 #[verifier::external_body] pub fn opq_format() -> String { unimplemented!() }
-pub struct JsonValue { pub _opaque: () }
+#[verifier::external_body] pub struct JsonValue { _o: () }
 /// `serde_json::json!({..})`: some value (context for the error log)
 #[verifier::external_body] pub fn opq_json() -> JsonValue { unimplemented!() }
 
@@ -83,7 +83,7 @@ pub mod error { use super::*;
 }
 use error::GitAiError;
 #[verifier::external_body] #[verifier::reject_recursive_types(K)] #[verifier::reject_recursive_types(V)] pub struct HashMap<K, V> { _k: core::marker::PhantomData<(K, V)> }
-pub struct AiTranscript { pub _opaque: () }
+#[verifier::external_body] pub struct AiTranscript { _o: () }
 
 //#item file=src/authorship/working_log.rs kind=enum name=CheckpointKind derive=Clone,Copy,PartialEq,Eq
 //@ #[derive(Structural)]
@@ -416,7 +416,7 @@ pub mod observability { use super::*;
     #[verifier::external_body] pub fn spawn_background_flush() { unimplemented!() }
 }
 pub mod config { use super::*;
-    pub struct Config { pub _opaque: () }
+    #[verifier::external_body] pub struct Config { _o: () }
     impl Config {
         #[verifier::external_body] pub fn get() -> (r: &'static Config) { unimplemented!() }
         /// uninterpreted: is git-ai enabled for this repository (exclusion / allow list)
@@ -424,13 +424,13 @@ pub mod config { use super::*;
     }
 }
 pub mod metrics { use super::*;
-    pub struct EventAttributes { pub _opaque: () }
-    pub struct AgentUsageValues { pub _opaque: () }
+    #[verifier::external_body] pub struct EventAttributes { _o: () }
+    #[verifier::external_body] pub struct AgentUsageValues { _o: () }
     impl AgentUsageValues { #[verifier::external_body] pub fn new() -> AgentUsageValues { unimplemented!() } }
     #[verifier::external_body] pub fn record(values: AgentUsageValues, attrs: EventAttributes) { unimplemented!() }
 }
-pub struct Instant { pub _opaque: () }
-pub struct Duration { pub _opaque: () }
+#[verifier::external_body] pub struct Instant { _o: () }
+#[verifier::external_body] pub struct Duration { _o: () }
 impl Instant { #[verifier::external_body] pub fn elapsed(&self) -> Duration { unimplemented!() } }
 #[verifier::external_body] fn opq_now() -> Instant { unimplemented!() }
 #[verifier::external_body] pub fn log_performance_for_checkpoint(files_edited: usize, duration: Duration, kind: CheckpointKind) { unimplemented!() }
@@ -517,9 +517,8 @@ fn emit_no_repo_agent_metrics(agent_run_result: Option<&AgentRunResult>)
 #[verifier::external_body] fn opq_opt_blank(o: &Option<String>) -> bool requires *o is Some, { unimplemented!() }
 /// `!s.trim().is_empty()`
 #[verifier::external_body] fn opq_nonblank(s: &String) -> bool { unimplemented!() }
-pub struct Stdin { pub _opaque: () }
-#[derive(Debug)]
-pub struct IoError { pub _opaque: () }
+#[verifier::external_body] pub struct Stdin { _o: () }
+#[verifier::external_body] pub struct IoError { _o: () }
 /// `PathBuf::to_string_lossy()` followed by `.to_string()`: the text of the path
 pub struct LossyText { pub p: Ghost<PathV> }
 impl PathBuf { #[verifier::external_body] pub fn to_string_lossy(&self) -> (r: LossyText) ensures r.p@ == pbv(*self), { unimplemented!() } }
